@@ -209,8 +209,8 @@ PROPS["C05"] = dict(
                "near-miss triggers, zmodem-like and OSC52 fragments, trace-log near-misses, protocol look-alikes, 1-70 KB blocks; input: random bytes, keys, bracketed paste, path-like text "
                "naming files that do not exist. Oracle: everything written to the terminal equals the server output fed, everything reaching the server equals the input typed, checked after "
                "every step and again after every transfer outcome (the filter must have left transfer mode).",
-    level_note="Complete triggers, complete zmodem headers and the literal trace-log markers are excluded by construction and counted. The wrapped command's exit status (trzsz binary + pty) is "
-               "not exercised by this check.",
+    level_note="Complete triggers, complete zmodem headers and the literal trace-log markers are excluded by construction and counted. The exit status is checked on the real trzsz binary in front of a pty "
+               "(16 fixed runs: status 0/1/7/255 x four option sets), not on generated histories.",
     rule="non-trivial = at least two chunks were passed through; distinct by SHA-1 of the case JSON; labels report option sets and preceding transfer outcomes",
     tests=[dict(name="TestVF_C05", env=dict(VERIF_CASE_LIMIT=300),
                 quick=dict(checks=2400, shards=16, timeout=600), thorough=dict(checks=120000, shards=32, timeout=6000))],
@@ -341,6 +341,8 @@ PROPS["C13"]["yield"] = ["relay.go", "buffer.go"]
 PROPS["C06"]["bins"] = True
 PROPS["C06"]["tests"].append(dict(name="TestVF_C06Filter", env=dict(VERIF_CASE_LIMIT=120),
                                   quick=dict(checks=160, shards=32, timeout=600), thorough=dict(checks=3000, shards=32, timeout=6000)))
+
+PROPS["C05"]["tests"].append(dict(name="TestVF_C05Exit", rapid=False, quick=dict(shards=8, timeout=300), thorough=dict(shards=8, timeout=300)))
 
 # native fuzz targets (thorough tier only; Go's fuzzer cannot be pinned to a seed, a saved crasher is the reproducible unit)
 for _pid in ["C03", "C04", "C06", "C15", "C16", "C20"]:
